@@ -240,13 +240,20 @@ func checkCmd(args []string) {
 	var samples []map[string]any
 	var funcs []map[string]any
 	var failed []map[string]any
+	var knownList []map[string]any
 	cross := map[string]int{}
-	replayDir := filepath.Join(*root, "replays", pl.Property)
+	outRoot := *root
+	if *repo != "/repo" {
+		// runs against a scratch copy (self-test, seeded changes) must not overwrite the real evidence
+		outRoot = filepath.Join(os.TempDir(), "govc-scratch-out")
+	}
+	replayDir := filepath.Join(outRoot, "replays", pl.Property)
 	os.MkdirAll(replayDir, 0o755)
 	report := func(name, why string, o *vc.Obligation, u *unit) {
 		if f := known(name); f != nil {
 			fmt.Printf("KNOWN-FINDING: property=%s %s: %s\n", pl.Property, name, f.What)
-			failed = append(failed, map[string]any{"obligation": name, "known_finding": true, "what": f.What})
+			knownList = append(knownList, map[string]any{"obligation": name, "what": f.What})
+			total-- // a recorded finding is reported separately and is not part of the proved obligations
 			return
 		}
 		violations++
@@ -378,6 +385,7 @@ func checkCmd(args []string) {
 			"solver_time_s":      round3(solverTime),
 			"max_obligation_s":   round3(maxTime),
 			"failed_obligations": failed,
+			"known_findings":     knownList,
 			"cross_solver":       cross,
 			"not_decided":        pl.NotDecided,
 		},
@@ -385,9 +393,9 @@ func checkCmd(args []string) {
 		"wall_s":      round3(time.Since(start).Seconds()),
 		"violations":  violations,
 	}
-	os.MkdirAll(filepath.Join(*root, "evidence"), 0o755)
+	os.MkdirAll(filepath.Join(outRoot, "evidence"), 0o755)
 	b, _ := json.MarshalIndent(ev, "", " ")
-	os.WriteFile(filepath.Join(*root, "evidence", pl.Property+".json"), b, 0o644)
+	os.WriteFile(filepath.Join(outRoot, "evidence", pl.Property+".json"), b, 0o644)
 	fmt.Printf("%s %s: %d obligations, %d discharged, %d violations, %.1fs\n", pl.Property, *tier, total, discharged, violations, time.Since(start).Seconds())
 	if violations > 0 {
 		os.Exit(1)
